@@ -15,6 +15,23 @@ for tc in ET.parse(junit).getroot().iter('testcase'):
         passed.add('%s::%s' % (tc.get('classname'), tc.get('name')))
 os.unlink(junit)
 missing = [t for t in base['stable_pass'] if t not in passed]
+# a timing-sensitive test (test_dos test_interactive_shell) fails under heavy machine load: retry missing tests alone
+for attempt in range(3):
+    if not missing:
+        break
+    still = []
+    for t in missing:
+        mod, name = t.split('::')
+        path = mod.rsplit('.', 1)[0].replace('.', '/') + '.py'
+        cls = mod.rsplit('.', 1)[1]
+        q = subprocess.run(['/venv/bin/python', '-m', 'pytest', '-q', '-p', 'no:cacheprovider', '--timeout=900',
+                            '--continue-on-collection-errors', '%s::%s::%s' % (path, cls, name)], cwd=repo, env=env,
+                           stdout=subprocess.PIPE, stderr=subprocess.STDOUT, text=True)
+        if ' passed' not in q.stdout.splitlines()[-1]:
+            still.append(t)
+        else:
+            print('  (passed on retry: %s)' % t)
+    missing = still
 print('baseline: %d/%d stable tests passed' % (len(base['stable_pass']) - len(missing), len(base['stable_pass'])))
 for t in missing:
     print('  MISSING', t)
